@@ -193,11 +193,16 @@ def extract_model(ctx, c, f, t0):
         forms = {}
         for s_, pc in parsed:
             if pc and pc[2] in (opener, closer) and not contains(loop_match_of(ix, loop) or {}, s_["node"]):
-                conds = [(c_, pol) for c_, pol in norm.path_conditions(ix, s_["node"], upto=loop) if not is_pc_test(c_)]
+                conds = [(c_, pol) for c_, pol in norm.path_conditions(ix, s_["node"], upto=loop, arms=True) if not is_pc_test(c_)]
                 conds = [(c_, pol) for c_, pol in conds if not (c_.get("k") == "letexpr")]
                 try:
                     fm = ("const", True)
                     for c_, pol in conds:
+                        if c_.get("k") == "armpat":
+                            # `match conversion { Kind::A => write.. }` / `match (a, b) { (true, false) => .. }`
+                            x = norm.armpat_formula(ix, c_, lambda e_: bp.extract(e_, {}, defs, None, 0, None, atom_fn))
+                            fm = ("and", fm, x if pol else ("not", x))
+                            continue
                         x = bp.extract(c_, {}, defs, None, 0, None, atom_fn)
                         fm = ("and", fm, x if pol else ("not", x))
                 except bp.Opaque as ex:
@@ -1008,7 +1013,7 @@ def identifiers(ctx, c):
                     return False
             return False
         covered = [nm for nm in names_ if reaches_escape(nm)]
-        ctx.inst("R05.5", "escaped:%s" % path.split("::")[-1], len(covered) == len(names_) and len(names_) >= 2, h["span"], "%d of %d symbol names written by %s do not pass through escape_smt_identifier" % (len(names_) - len(covered), len(names_), path))
+        ctx.inst("R05.5", "escaped:%s" % path.split("::")[-1], len(covered) == len(names_) and len(names_) >= 1, h["span"], "%d of %d symbol names written by %s do not pass through escape_smt_identifier" % (len(names_) - len(covered), len(names_), path))
 
 
 CMD_NAMES = {"Exit": "exit", "CheckSat": "check-sat", "SetLogic": "set-logic", "SetOption": "set-option", "SetInfo": "set-info", "Assert": "assert", "DeclareConst": "declare-const",
